@@ -37,29 +37,16 @@ theorem downB_spec {cmp} (hs : SWO cmp) (s : List Int) (i n lo : Nat) (strict : 
   congr 2
   simp
 
-/-- `fix(s, cmp, swap, i, n)`: if the first `n` positions are a heap except for the value at
-`i`, the heap order is restored on them; multiset kept; positions `≥ n` untouched; no panic. -/
-theorem fix_spec {cmp} (hs : SWO cmp) (s : List Int) (i n : Nat) (f0 : Nat → Int)
-    (hn : n ≤ s.length) (hi : i < n) (h0 : HeapOn cmp f0 0 n)
-    (hsame : ∀ k, k < n → k ≠ i → nthN s k = f0 k) :
+/-- `fix(s, cmp, swap, i, n)` from the bare order facts: all pairs not involving `i` are in
+order and the children of `i` do not precede `i`'s parent.  Then the heap order is restored on
+the first `n` positions; multiset kept; positions `≥ n` untouched; no panic. -/
+theorem fix_spec_core {cmp} (hs : SWO cmp) (s : List Int) (i n : Nat)
+    (hn : n ≤ s.length) (hi : i < n)
+    (hpair : ∀ c, c < n → 1 ≤ c → c ≠ i → par c ≠ i → cmp (nthN s c) (nthN s (par c)) = false)
+    (hgrand : 1 ≤ i → ∀ c, c < n → 1 ≤ c → par c = i → cmp (nthN s c) (nthN s (par i)) = false) :
     ∃ s', fix (sliceOps cmp) s (i : Int) (n : Int) = some s' ∧
       s'.length = s.length ∧ s'.Perm s ∧ (∀ k, n ≤ k → nthN s' k = nthN s k) ∧
       HeapOn cmp (nthN s') 0 n := by
-  -- pairs not involving `i` are as in `f0`
-  have hpair : ∀ c, c < n → 1 ≤ c → c ≠ i → par c ≠ i → cmp (nthN s c) (nthN s (par c)) = false := by
-    intro c hc hc1 hci hpi
-    have : par c < n := by unfold par; omega
-    rw [hsame c hc hci, hsame (par c) this hpi]
-    exact h0 c hc hc1 (Nat.zero_le _)
-  have hgrand : 1 ≤ i → ∀ c, c < n → 1 ≤ c → par c = i → cmp (nthN s c) (nthN s (par i)) = false := by
-    intro hi1 c hc hc1 hpc
-    have hci : c ≠ i := by unfold par at hpc; omega
-    have hpi : par i ≠ i := by unfold par; omega
-    have : par i < n := by unfold par; omega
-    rw [hsame c hc hci, hsame (par i) this hpi]
-    have h1 := h0 c hc hc1 (Nat.zero_le _)
-    rw [hpc] at h1
-    exact hs.negTrans (h0 i hi hi1 (Nat.zero_le _)) h1
   have hpre : DownPre cmp (nthN s) i n 0 false := by
     refine ⟨?_, fun hi1 _ => hgrand hi1⟩
     intro c hc hc1 _ hpi hor
@@ -87,6 +74,28 @@ theorem fix_spec {cmp} (hs : SWO cmp) (s : List Int) (i n : Nat) (f0 : Nat → I
     obtain ⟨s2, hrun2, hlen2, hperm2, htail2, hheap⟩ := up_spec hs (i + 1) s1 i n hn hi (by omega) hup
     refine ⟨s2, ?_, hlen2, hperm2, htail2, hheap⟩
     simp only [upF, fuelOf_cast, hrun2]
+
+/-- `fix(s, cmp, swap, i, n)`: if the first `n` positions are a heap except for the value at
+`i`, the heap order is restored on them; multiset kept; positions `≥ n` untouched; no panic. -/
+theorem fix_spec {cmp} (hs : SWO cmp) (s : List Int) (i n : Nat) (f0 : Nat → Int)
+    (hn : n ≤ s.length) (hi : i < n) (h0 : HeapOn cmp f0 0 n)
+    (hsame : ∀ k, k < n → k ≠ i → nthN s k = f0 k) :
+    ∃ s', fix (sliceOps cmp) s (i : Int) (n : Int) = some s' ∧
+      s'.length = s.length ∧ s'.Perm s ∧ (∀ k, n ≤ k → nthN s' k = nthN s k) ∧
+      HeapOn cmp (nthN s') 0 n := by
+  refine fix_spec_core hs s i n hn hi ?_ ?_
+  · intro c hc hc1 hci hpi
+    have : par c < n := by unfold par; omega
+    rw [hsame c hc hci, hsame (par c) this hpi]
+    exact h0 c hc hc1 (Nat.zero_le _)
+  · intro hi1 c hc hc1 hpc
+    have hci : c ≠ i := by unfold par at hpc; omega
+    have hpi : par i ≠ i := by unfold par; omega
+    have : par i < n := by unfold par; omega
+    rw [hsame c hc hci, hsame (par i) this hpi]
+    have h1 := h0 c hc hc1 (Nat.zero_le _)
+    rw [hpc] at h1
+    exact hs.negTrans (h0 i hi hi1 (Nat.zero_le _)) h1
 
 /-- `build`: any slice becomes a heap; multiset kept; no panic. -/
 theorem buildLoop_spec {cmp} (hs : SWO cmp) (n : Nat) : ∀ (k : Nat) (s : List Int),
